@@ -221,6 +221,7 @@ class BaseSection(base.Sectionable):
 
         # Make sure the merge is possible before anything is changed.
         self.merge_check(new_section, False)
+        self._merge_name_check(new_section)
 
         if self._include is not None:
             self.clean()
@@ -266,6 +267,7 @@ class BaseSection(base.Sectionable):
 
         # Make sure the merge is possible before anything is changed.
         self.merge_check(new_section, False)
+        self._merge_name_check(new_section)
 
         if self._link is not None:
             self.clean()
